@@ -1,5 +1,7 @@
 import TeakraModel.Generated.Facade
 import TeakraModel.Golden.Facade
+import TeakraModel.Generated.CBinding
+import TeakraModel.Golden.CBinding
 /-!
 The facade translated from `src/teakra.cpp` of the tree under test equals the committed translation of the pinned tree,
 against which the host-API functions of `TeakraModel/Bus.lean` (one per `Teakra::method`) were written.
@@ -8,7 +10,8 @@ namespace Teakra
 
 theorem facade_eq_golden :
     Generated.members = Golden.members ∧ Generated.wiring = Golden.wiring ∧ Generated.resetCalls = Golden.resetCalls ∧
-    Generated.methods = Golden.methods ∧ Generated.icuToCore = Golden.icuToCore ∧ Generated.setMmio = Golden.setMmio := by
+    Generated.methods = Golden.methods ∧ Generated.methodSigs = Golden.methodSigs ∧
+    Generated.cForwarders = Golden.cForwarders ∧ Generated.cSpecial = Golden.cSpecial ∧ Generated.icuToCore = Golden.icuToCore ∧ Generated.setMmio = Golden.setMmio := by
   decide +kernel
 
 end Teakra
